@@ -234,14 +234,54 @@ def scan_shared(tree, parents, class_attrs, module_names):
             if isinstance(owner, ast.Name) and owner.id in ("__class__", "self", "cls") or \
                     (isinstance(owner, ast.Name) and owner.id in class_attrs):
                 if nm in class_attrs.get(cl, set()) or any(nm in s for s in class_attrs.values()):
+                    if _exact_memo(tree, parents, node, base):
+                        continue
                     out.append((node, f"{what} on class-level table `{norm_text(base)}`"))
                 elif isinstance(owner, ast.Name) and owner.id == "self":
                     fnode = _direct_function(node, parents)
                     if not (isinstance(fnode, ast.FunctionDef) and fnode.name == "__init__"):
                         out.append((node, f"{what} on instance state `{norm_text(base)}` after construction"))
         elif isinstance(base, ast.Name) and _is_shared_name(base, parents, module_names):
+            if _exact_memo(tree, parents, node, base):
+                continue
             out.append((node, f"{what} on module-level `{base.id}`"))
     return out
+
+
+def _exact_memo(tree, parents, store, table):
+    """`T[key] = value` is an exact memo - and therefore cannot change any result - when: it sits in a function without
+    self / cls, the key is exactly the function's parameters (one name, or a tuple of all of them, in any order), the
+    stored value is not a mutable container, and the table is touched nowhere else in the module."""
+    if not (isinstance(store, ast.Subscript) and isinstance(store.ctx, ast.Store) and store.value is table):
+        return False
+    fn = _direct_function(store, parents)
+    if not isinstance(fn, ast.FunctionDef):
+        return False
+    params = [a.arg for a in fn.args.posonlyargs + fn.args.args + fn.args.kwonlyargs]
+    if not params or params[0] in ("self", "cls") or fn.args.vararg or fn.args.kwarg:
+        return False
+    key = store.slice
+    names = [key.id] if isinstance(key, ast.Name) else [e.id for e in key.elts if isinstance(e, ast.Name)] if isinstance(key, ast.Tuple) else []
+    if isinstance(key, ast.Tuple) and len(names) != len(key.elts):
+        return False
+    if sorted(names) != sorted(params):
+        return False
+    # parameters must not be rebound before the store
+    for n in ast.walk(fn):
+        if isinstance(n, ast.Name) and isinstance(n.ctx, ast.Store) and n.id in params:
+            return False
+    st = parents.get(store)
+    if not isinstance(st, ast.Assign) or _mutable_expr(st.value):
+        return False
+    want = ast.dump(table)
+    for n in ast.walk(tree):
+        if isinstance(n, (ast.Attribute, ast.Name)) and ast.dump(n) == want and n is not table:
+            if _direct_function(n, parents) is not fn:
+                par = parents.get(n)
+                if not (isinstance(par, (ast.Assign, ast.AnnAssign)) and not isinstance(parents.get(par), ast.FunctionDef)
+                        and _direct_function(par, parents) is None):
+                    return False
+    return True
 
 
 def _is_shared_name(name_node, parents, module_names):
@@ -981,6 +1021,7 @@ PURE_FUNCTOOLS = {"reduce", "partial", "wraps", "cmp_to_key", "total_ordering"} 
 def scan_hidden(tree):
     out = []
     functools_aliases = set()
+    from_cache = set()
     for n in ast.walk(tree):
         if isinstance(n, ast.Call) and isinstance(n.func, ast.Name) and n.func.id in HIDDEN_CALLS:
             out.append((n, f"call of {n.func.id}()"))
@@ -991,12 +1032,41 @@ def scan_hidden(tree):
                 elif a.name.split(".")[0] in HIDDEN_MODULES:
                     out.append((n, f"import of {a.name}"))
         if isinstance(n, ast.ImportFrom) and n.module and n.module.split(".")[0] in HIDDEN_MODULES:
-            if n.module == "functools" and all(a.name in PURE_FUNCTOOLS for a in n.names):
+            if n.module == "functools" and all(a.name in PURE_FUNCTOOLS or a.name in ("lru_cache", "cache") for a in n.names):
+                for a in n.names:
+                    if a.name in ("lru_cache", "cache"):
+                        from_cache.add(a.asname or a.name)      # judged per decorated function, below
                 continue
             out.append((n, f"import from {n.module}"))
+    # a cache as decorator of a function without `self` whose every return is an immutable value cannot change any
+    # result (the function is re-evaluated or its old, unalterable result is handed out): judged per decorated function
+    safe_cache_nodes = set()
+    cache_names = {"lru_cache", "cache"}
+    for fn in ast.walk(tree):
+        if not isinstance(fn, ast.FunctionDef):
+            continue
+        for d in fn.decorator_list:
+            core = d.func if isinstance(d, ast.Call) else d
+            is_cache = (isinstance(core, ast.Attribute) and isinstance(core.value, ast.Name) and core.value.id in functools_aliases
+                        and core.attr in cache_names) or (isinstance(core, ast.Name) and core.id in from_cache)
+            if not is_cache:
+                continue
+            params = [a.arg for a in fn.args.posonlyargs + fn.args.args]
+            rets = [r.value for r in ast.walk(fn) if isinstance(r, ast.Return) and r.value is not None]
+            local_mut = {t.id for a in ast.walk(fn) if isinstance(a, ast.Assign) and _mutable_expr(a.value)
+                         for t in a.targets if isinstance(t, ast.Name)}
+            immutable = all(not _mutable_expr(v) and not (isinstance(v, ast.Name) and v.id in local_mut) for v in rets)
+            if params[:1] not in (["self"], ["cls"]) and rets and immutable and not any(isinstance(x, (ast.Yield, ast.YieldFrom)) for x in ast.walk(fn)):
+                for x in ast.walk(d):
+                    safe_cache_nodes.add(id(x))
+            else:
+                out.append((d, f"cache on `{fn.name}`, which " + ("takes the instance as key" if params[:1] in (["self"], ["cls"]) else
+                                                                  "returns a mutable object (every caller shares and may alter it)")))
     for n in ast.walk(tree):
         if isinstance(n, ast.Attribute) and isinstance(n.value, ast.Name) and n.value.id in functools_aliases \
                 and n.attr not in PURE_FUNCTOOLS:
+            if id(n) in safe_cache_nodes or any(o[0] is not n and id(n) in {id(y) for y in ast.walk(o[0])} for o in out):
+                continue
             out.append((n, f"use of functools.{n.attr} (caches / hidden state)"))
         elif isinstance(n, ast.Name) and n.id in functools_aliases and not isinstance(n.ctx, ast.Store):
             par = None     # a bare use of the module object (passed around): cannot be judged
